@@ -22,6 +22,11 @@ func init() {
 	engine.RegisterSignature("c16-slice-setlen-unaddressable", sigSetLen)
 	engine.RegisterSignature("c16-delete-non-index-stack-overflow", sigLethal)
 	engine.RegisterSignature("c16-passback-rebuilt-elementwise", sigPassbackCopy)
+	engine.RegisterSignature("c16-number-to-string-go-format", func(m *engine.Mismatch) bool {
+		// T is string, the argument a number whose Go %v text differs from the
+		// JavaScript text: the callee received exactly the %v text
+		return (m.Aux["T"] == "string" || m.Aux["T"] == "[]string") && m.Aux["plain"] == "ok" && m.Aux["try"] == "ok" && m.Aux["gofmt"] != "" && (m.Aux["recv"] == m.Aux["gofmt"] || m.Aux["recv"] == m.Aux["gofmt2"])
+	})
 	engine.RegisterSignature("c16-accessor-element-skipped", func(m *engine.Mismatch) bool {
 		// the array argument has an accessor element; the callee received exactly
 		// the array with that element left at its zero value (as for a hole)
